@@ -180,13 +180,13 @@ two selected children), M[c] |= W[c] AND NOT(both children of its parent) for bo
 emitted), the result is M started at 0, and the only other answer is the constant root bit, given exactly for the whole
 domain (the test in front of it, a comparison of linear forms of the two coordinates, holds for (0, leaves-1) and no other
 range). Leaves: both masks start from the same fill of (start, end) in that order, a coordinate is moved to its leaf by
-adding 2^POWER - 1, and the fill, as a sum of powers of two modulo 2^64, is 2^(last+1) - 2^first [HEAPMASK]. The tree stores
-through the place mask and queries through the visit mask of (min, max) [SEGFLOW]. From these the stored-at places are the
+adding 2^POWER - 1, and the fill, as a sum of powers of two modulo 2^64, is 2^(last+1) - 2^first; the iterator over the bits of a mask answers None exactly when no bit is left, otherwise the position of the lowest set bit, and takes exactly that bit off [HEAPMASK]. The tree stores
+through the place mask and queries through the visit mask of (min, max), and from the call down to the mask function every hop returns the next hop's result (nothing cached or merged in) and passes the positions of the two bounds on in order [SEGFLOW]. From these the stored-at places are the
 maximal nodes all of whose leaves are selected (they tile [a,b]) and the visited places are the nodes with a selected leaf
 below: they meet iff the ranges share a bucket (paper argument, DESIGN 10.17). NOT decided: the count bound (at most 8
 copies); a mask computed in a shape the folding cannot follow (closed forms, closures) is reported as undecided.""",
      ["two's-complement semantics of << >> & | ^ ! on u64 as documented", "the paper argument from the decided clauses to the overlap equivalence (DESIGN 10.17)"],
-     {'HEAPMASK': 4, 'SEGFLOW': 2})
+     {'HEAPMASK': 5, 'SEGFLOW': 2})
 
 prop('C16', """
 Static analysis (MIR/SSA). Decided clauses: on the expired side of the expiry test (expiration < time) the scanned copy
